@@ -674,6 +674,9 @@ func (P *Prog) checkMergeOrder(r *Result) {
 		case other:
 			return "other"
 		}
+		if len(fn.Params) == 3 && srcOwner(v) == ssa.Value(fn.Params[2]) {
+			return "others"
+		}
 		return "?"
 	}
 	spec.events = func(in ssa.Instruction) []pathItem {
@@ -811,8 +814,46 @@ func (P *Prog) checkMergeOrder(r *Result) {
 			}
 		}
 	}
+	// the same fold written out: a loop over the remaining operands that copies each of the three roles of the
+	// element itself, after the copies of the receiver and the first operand
+	directOK, sawDirect := true, false
+	if !sawFold {
+		for _, p := range res.paths {
+			iter := -1
+			for i, it := range p.items {
+				if it.kind == "LOOP" && it.val == "iter" && iter < 0 {
+					iter = i
+				}
+				if strings.HasPrefix(it.kind, "COPY:") && it.val == "others" && iter < 0 {
+					directOK = false // an element of the rest copied outside the loop
+				}
+			}
+			if iter < 0 {
+				continue
+			}
+			for _, field := range []string{"schema", "tests", "postTransforms"} {
+				got := false
+				for _, it := range p.items[iter+1:] {
+					if it.kind == "COPY:"+field {
+						if it.val == "others" {
+							got = true
+						} else {
+							directOK = false // the receiver or the first operand copied again after an element of the rest
+						}
+					}
+				}
+				if got {
+					sawDirect = true
+				} else {
+					directOK = false
+				}
+			}
+		}
+	}
 	if foldProblem != "" {
 		r.bad("C16/operand-order", "Merge#others", P.pos(fn.Pos()), foldProblem)
+	} else if !sawFold && sawDirect && directOK {
+		r.ok("C16/operand-order", "Merge#others", P.pos(fn.Pos()), "remaining operands copied role by role, in a loop after receiver and first operand")
 	} else if loopOK && sawFold {
 		r.ok("C16/operand-order", "Merge#others", P.pos(fn.Pos()), "remaining operands folded left after receiver and first operand")
 	} else {
@@ -1002,6 +1043,19 @@ func (P *Prog) checkSelection(r *Result) {
 						probs = append(probs, "a key of a map[string]bool argument is used without testing its boolean value ("+P.ipos(in)+")")
 					}
 					return []pathItem{{kind: "DELETE", val: strings.Join(probs, "; "), in: in}}
+				}
+				// the entries of a selector map poured into a local set wholesale: the `false` entries go in as well (and
+				// overwrite a `true` entered for the same key by an earlier argument)
+				if ci.static != nil && originName(ci.static) == "maps.Copy" && !isSchemaMap(ci.instr.Common().Args[0].Type()) {
+					if mk, isMk := cv(ci.instr.Common().Args[0]).(*ssa.MakeMap); isMk && mk.Parent() == in.Parent() {
+						if mt, ok := mk.Type().Underlying().(*types.Map); ok && types.Identical(mt.Key().Underlying(), types.Typ[types.String]) {
+							if st, ok := ci.instr.Common().Args[1].Type().Underlying().(*types.Map); ok {
+								if b, isB := st.Elem().Underlying().(*types.Basic); isB && b.Kind() == types.Bool {
+									return []pathItem{{kind: "MARK", val: "the entries of a map[string]bool argument are copied into the selection set without testing their boolean value (" + P.ipos(in) + "): a key entered as false counts as named, or un-names a key an earlier argument selected", in: in, aux: mk}}
+								}
+							}
+						}
+					}
 				}
 				if ci.static != nil && originName(ci.static) == "maps.Copy" && isSchemaMap(ci.instr.Common().Args[0].Type()) {
 					src := ci.instr.Common().Args[1]
